@@ -119,9 +119,15 @@ type readResult struct {
 	payload []byte
 	err     error
 	pn      interface{}
+	held    io.Reader
 }
 
-func guardedRead(r *p2p.VerifRLPX) (res readResult) {
+func guardedRead(r *p2p.VerifRLPX) (res readResult) { return guardedReadHold(r, false) }
+
+// guardedReadHold with hold set leaves the payload unread in res.held: the
+// caller drains it after later reads on the same connection, the way a
+// protocol handler still decodes message N while the read loop fetches N+1.
+func guardedReadHold(r *p2p.VerifRLPX, hold bool) (res readResult) {
 	defer func() {
 		if p := recover(); p != nil {
 			res.pn = p
@@ -135,8 +141,19 @@ func guardedRead(r *p2p.VerifRLPX) (res readResult) {
 		return
 	}
 	res.code, res.size = msg.Code, msg.Size
+	if hold {
+		res.held = msg.Payload
+		return
+	}
 	res.payload, res.err = io.ReadAll(msg.Payload)
 	return
+}
+
+type heldMsg struct {
+	r    io.Reader
+	want []byte
+	code uint64
+	at   int
 }
 
 // ---------- message generator ----------
@@ -358,6 +375,18 @@ func TestRLPXSession(t *testing.T) {
 		}
 		dead := [2]bool{} // direction whose stream has been tampered with
 		delivered := 0
+		var holds [2][]heldMsg // per reading end: messages delivered whose payload has not been consumed yet
+		drainHeld := func(end int, now int) {
+			for _, h := range holds[end] {
+				got, err := io.ReadAll(h.r)
+				if err != nil || !bytes.Equal(got, h.want) {
+					fail("message %d (code %x, %d bytes) was delivered, but its payload read after message %d arrived differs from what was written (err %v, %d bytes, equal prefix %d)",
+						h.at, h.code, len(h.want), now, err, len(got), commonPrefix(got, h.want))
+				}
+				labels = append(labels, "payload-consumed-after-next-read")
+			}
+			holds[end] = nil
+		}
 		for i := 0; i < nmsg; i++ {
 			d := rapid.IntRange(0, 1).Draw(t, "dir")
 			code := rapid.SampledFrom(msgCodes).Draw(t, "code")
@@ -418,7 +447,8 @@ func TestRLPXSession(t *testing.T) {
 				labels = append(labels, "tamper:"+region, "tamper-kind:"+kind)
 				canon = append(canon, fmt.Sprintf("T%s%d;", kind, pos)...)
 			}
-			res := guardedRead(r)
+			hold := rapid.Bool().Draw(t, "holdpayload")
+			res := guardedReadHold(r, hold)
 			alloc := res.alloc
 			if res.pn != nil {
 				fail("ReadMsg panicked (code %x size %d, tampered=%v): %v", code, size, dead[d], res.pn)
@@ -428,6 +458,18 @@ func TestRLPXSession(t *testing.T) {
 			// reads after a failure exist only in this harness.
 			if bound := allocBoundFor(size); alloc > bound && !(dead[d] && i != tamperAt) && !backgroundNoisy() {
 				fail("ReadMsg allocated %d bytes for a %d-byte message (tampered=%v)", alloc, size, dead[d])
+			}
+			drainHeld(1-d, i)
+			if res.held != nil && !dead[d] {
+				if res.code != code || int(res.size) != size {
+					fail("delivered message differs: wrote code %x size %d, read code %x size %d", code, size, res.code, res.size)
+				}
+				holds[1-d] = append(holds[1-d], heldMsg{res.held, payload, code, i})
+				delivered++
+				labels = append(labels, sizeLabel(size))
+				continue
+			} else if res.held != nil {
+				fail("message delivered from a stream tampered with at or before this frame (code %x; message %d, tamper at %d)", res.code, i, tamperAt)
 			}
 			if dead[d] {
 				if res.err == nil {
@@ -446,6 +488,8 @@ func TestRLPXSession(t *testing.T) {
 			delivered++
 			labels = append(labels, sizeLabel(size))
 		}
+		drainHeld(0, nmsg)
+		drainHeld(1, nmsg)
 		if delivered > 0 {
 			labels = append(labels, "delivered")
 		}
@@ -453,6 +497,14 @@ func TestRLPXSession(t *testing.T) {
 		ev.Case(true, canon, labels...)
 		ev.Sample(map[string]interface{}{"kind": "rlpx-session", "scenario": scenario, "snappy": snappy, "trace": string(canon)})
 	})
+}
+
+func commonPrefix(a, b []byte) int {
+	n := 0
+	for n < len(a) && n < len(b) && a[n] == b[n] {
+		n++
+	}
+	return n
 }
 
 func sizeLabel(n int) string {
